@@ -191,4 +191,12 @@ theorem tie_atomic : tieItem Gen.atomicTie "atomic:client.Client.send" = true :=
 theorem tie_register_atomic :
     Atomic.sameRegion .clientSend .clientMutex [.testShutdown, .testClosing, .setSeq, .putPending] = true := by decide
 
+/-- the client's sequence counter is advanced in exactly one place – the registration inside `send` –
+    and never moved otherwise (not handed back when a call fails after registration, not touched by
+    the reader, by `call`, by `Close` or by `SendRaw`, which uses the caller's own number): the
+    model's `nextSeq` only grows, which is what `seqs_distinct` rests on -/
+theorem tie_seq_advanced_once :
+    Atomic.countOf .clientSend .setSeq = 1 ∧ Atomic.countOf .clientInput .setSeq = 0 ∧ Atomic.countOf .clientCall .setSeq = 0
+      ∧ Atomic.countOf .clientClose .setSeq = 0 ∧ Atomic.countOf .clientSendRaw .setSeq = 0 := by decide
+
 end Rpcx.Props.C03
